@@ -1,9 +1,11 @@
 package props
 
 import (
+	"bytes"
 	"fmt"
 	"io"
 	"runtime/metrics"
+	"strings"
 
 	"verif/mc/engine"
 	"verif/mc/gen"
@@ -190,7 +192,7 @@ func init() {
 	register(func() {
 		engine.Register(&engine.Check{
 			ID: "C03", Level: "exploration",
-			Rule:        "byte strings: ALL strings of length <=2 over all 256 byte values; all strings of length 3..L over a per-format reduced alphabet (one symbol per parser branch: 52 CBOR, 27 UBJSON, 35 JSON symbols); length/argument fields set to 0,1,2^31,2^32,2^62,2^63-1,2^63,2^64-1 followed by 0-2 payload bytes; every single-byte deletion/truncation/substitution (from the reduced alphabet) of a corpus of valid documents; x entry points {Parse, ParseString, ParseReader, Write, BytesDecoder.Next loop, ReaderDecoder.Next loop, and the two reader-based ones over a reader that returns its last chunk together with io.EOF} x chunkings {whole, every single cut, all single bytes}; oracle: no panic, deterministic step budget 2000+400n (no wall clock), allocation <= 1MiB+1KiB*(n+events), decoder loop terminates, and reference verdict Truncated => error other than io.EOF; a case is one input string (distinct by codec+bytes), non-trivial = at least 2 bytes",
+			Rule:        "byte strings: ALL strings of length <=2 over all 256 byte values; all strings of length 3..L over a per-format reduced alphabet (one symbol per parser branch: 52 CBOR, 27 UBJSON, 35 JSON symbols); length/argument fields set to 0,1,2^31,2^32,2^62,2^63-1,2^63,2^64-1 followed by 0-2 payload bytes; every single-byte deletion/truncation/substitution (from the reduced alphabet) of a corpus of valid documents; scaling inputs (one unit - backslash pair, digit, bracket, blank, escape, no-op, element, member - repeated 1 024 and 4 096 times, and length-prefixed items of 1 024 - 16 384 bytes) whole and in single bytes; x entry points {Parse, ParseString, ParseReader, Write, BytesDecoder.Next loop, ReaderDecoder.Next loop, and the two reader-based ones over a reader that returns its last chunk together with io.EOF} x chunkings {whole, every single cut, all single bytes}; oracle: no panic, deterministic step budget 2000+400n (no wall clock), allocation <= 1MiB+1KiB*(n+events), decoder loop terminates, and reference verdict Truncated => error other than io.EOF; a case is one input string (distinct by codec+bytes), non-trivial = at least 2 bytes",
 			Assumptions: []string{"bytes outside the reduced alphabet beyond length 2 take the default branches already represented", "time proportionality is established as a bound on instrumented steps (function entries and loop iterations), not seconds"},
 			Families:    c03Families,
 			Bounds: func(tier string) map[string]interface{} {
@@ -292,6 +294,63 @@ func c03Families(tier string) []engine.Family {
 		x.Sample(func() interface{} { return map[string]interface{}{"codec": "json", "text": doc} })
 		c03Check(x, codecJSON, in, "broken-escape", c03Combos(len(in), 3))
 	}})
+	fams = append(fams, engine.Family{Name: "scaling", Arity: []int{3}, Body: func(x *engine.Exec) {
+		// "time proportional to the input length for all chunkings": one unit repeated 1 024 and 4 096 times (runs of
+		// backslashes, digits, brackets, blanks, escapes, no-ops, elements, long strings), whole and in single bytes, under the
+		// same linear step budget as every other input - a quadratic continuation path needs ~n*n/2 steps and exceeds it
+		units := map[*Codec][][3]string{
+			codecJSON: {{`"`, bs + bs, `"`}, {`"`, bs + `"`, `"`}, {`"`, "a", `"`}, {`"`, bs + "u00e9", `"`}, {`"`, "\xc3\xa9", `"`}, {"", "1", ""}, {"0.", "5", ""}, {"1e", "0", ""}, {"", "[", ""}, {"[", " ", "]"},
+				{"[", "1,", "1]"}, {"[", `"a",`, "1]"}, {"{", `"k":1,`, `"z":0}`}, {"", `{"k":`, ""}, {"[", "[],", "1]"}, {`{"`, "k", `":1}`}, {"", "1 ", ""}, {`["`, bs + bs, ""}},
+			codecUBJSON: {{"", "[", ""}, {"", "N", "Z"}, {"[", "N", "]"}, {"[", "i\x01", "]"}, {"[", "Si\x01a", "]"}, {"{", "i\x01ki\x01", "}"}, {"", "{i\x01k", ""}, {"[", "[]", "]"}, {"[", "Z", "]"}, {"", "Z", ""}},
+			codecCBOR:   {{"", "\x81", "\x01"}, {"", "\x9f", ""}, {"\x9f", "\x01", "\xff"}, {"\x9f", "\x61a", "\xff"}, {"\xbf", "\x61k\x01", "\xff"}, {"", "\xbf\x61k", ""}, {"\x9f", "\x80", "\xff"}, {"", "\x01", ""}, {"\x9f", "\x41\x07", "\xff"}},
+		}
+		cd := codecs[x.Choose(3)]
+		us := units[cd]
+		u := us[x.Choose(len(us))]
+		n := []int{1024, 4096}[x.Choose(2)]
+		in := []byte(u[0] + strings.Repeat(u[1], n) + u[2])
+		// plus length-prefixed long strings, whose length field must match
+		x.Case(fmt.Sprintf("scale|%s|%q|%d", cd.Name, u, n), true)
+		x.Sample(func() interface{} {
+			return map[string]interface{}{"codec": cd.Name, "prefix": u[0], "repeated_unit": u[1], "suffix": u[2], "repetitions": n, "bytes": len(in)}
+		})
+		L := len(in)
+		c03Check(x, cd, in, "scaling", [][3]int{{0, 0, 0}, {2, L, 0}, {3, L, 0}, {4, 0, 0}, {5, L, 16}, {5, 0, 64}})
+	}}, engine.Family{Name: "scaling-strings", Arity: []int{3}, Body: func(x *engine.Exec) {
+		cd := codecs[x.Choose(3)]
+		n := []int{1024, 4096, 16384}[x.Choose(3)]
+		kind := x.Choose(3)
+		var in []byte
+		switch cd {
+		case codecJSON:
+			body := [...]string{"a", "\xc3\xa9", bs + "n"}[kind]
+			in = []byte(`"` + strings.Repeat(body, n) + `"`)
+		case codecUBJSON:
+			switch kind {
+			case 0:
+				in = append([]byte{'S', 'l', byte(n >> 24), byte(n >> 16), byte(n >> 8), byte(n)}, bytes.Repeat([]byte{'s'}, n)...)
+			case 1:
+				in = append([]byte{'H', 'l', byte(n >> 24), byte(n >> 16), byte(n >> 8), byte(n)}, bytes.Repeat([]byte{'7'}, n)...)
+			default:
+				in = append([]byte{'[', '$', 'U', '#', 'l', byte(n >> 24), byte(n >> 16), byte(n >> 8), byte(n)}, bytes.Repeat([]byte{7}, n)...)
+			}
+		default:
+			switch kind {
+			case 0:
+				in = append([]byte{0x7a, byte(n >> 24), byte(n >> 16), byte(n >> 8), byte(n)}, bytes.Repeat([]byte{'s'}, n)...)
+			case 1:
+				in = append([]byte{0x5a, byte(n >> 24), byte(n >> 16), byte(n >> 8), byte(n)}, bytes.Repeat([]byte{7}, n)...)
+			default:
+				in = append([]byte{0x9a, byte(n >> 24), byte(n >> 16), byte(n >> 8), byte(n)}, bytes.Repeat([]byte{0x20}, n)...)
+			}
+		}
+		x.Case(fmt.Sprintf("scale-str|%s|%d|%d", cd.Name, kind, n), true)
+		x.Sample(func() interface{} {
+			return map[string]interface{}{"codec": cd.Name, "long_item_kind": kind, "length": n}
+		})
+		L := len(in)
+		c03Check(x, cd, in, "scaling", [][3]int{{0, 0, 0}, {2, L, 0}, {3, L, 0}, {4, 0, 0}, {5, L, 16}, {5, 0, 64}})
+	}})
 	ed := allDocFamilies(edSc, func(x *engine.Exec, c *DocCase) {
 		doc := c.Doc
 		if len(doc) == 0 || len(doc) > 48 {
@@ -317,7 +376,7 @@ func c03Families(tier string) []engine.Family {
 	})
 	var keep []engine.Family
 	for _, f := range ed {
-		if f.Name == "json-int-boundaries" || f.Name == "ubj-noop-insertions" {
+		if f.Name == "json-int-boundaries" || f.Name == "ubj-noop-insertions" || strings.HasSuffix(f.Name, "-deeper") {
 			continue // 1 320 near-identical digit strings / single-byte insertions into documents that are edited anyway add nothing to the edit neighbourhood
 		}
 		f.Name += "-edits"
